@@ -51,6 +51,16 @@ func vBuildCluster(N int, settled bool, timeout time.Duration) {
 		}
 	}
 	for _, n := range vNodes {
+		if settled && v.Param("ghosts", 0) == 1 {
+			// a node that crashed or left and has not expired yet may still be
+			// listed (advertising anything); it must simply be skipped
+			switch v.Choose("ghost."+n.id, 3) {
+			case 1:
+				n.cs.AddNode(&cluster.Node{ID: "ghost", ProxyAddr: "ghost:8000", AdminAddr: "admin", Status: cluster.NodeStatusUnreachable, Endpoints: map[string]int{"e0": 1, "e1": 1}})
+			case 2:
+				n.cs.AddNode(&cluster.Node{ID: "ghost", ProxyAddr: "ghost:8000", AdminAddr: "admin", Status: cluster.NodeStatusLeft, Endpoints: map[string]int{"e0": 1, "e1": 1}})
+			}
+		}
 		for _, o := range vNodes {
 			if o == n {
 				continue
